@@ -1,5 +1,6 @@
 """Independent reading of a scheme file as a program (reference interpreter for C02/C03/C04 stand-ins) and
 molecule generators.  The only pgradd code it uses is the RING reader/matcher (whose own contract is C08)."""
+from pyvc import source
 import itertools
 import os
 import random
@@ -9,7 +10,7 @@ import yaml
 
 from . import real
 
-DATA = '/repo/pgradd/data'
+DATA = source.DATA_DIR
 _schemes = {}
 
 SURFACE = {'GRWAqueous2018': 'Pt', 'GRWSurface2018': 'Pt', 'GuSolventGA2017Aq': 'Pt', 'GuSolventGA2017Vac': 'Pt', 'PtSurface2023': 'Pt',
